@@ -170,7 +170,7 @@ theorem step_running (sp : Spec) (w : World) (ev : Event) (S : Tid → Prop) (h 
             split
             · exact h0
             · split
-              · exact h0
+              · exact checkAffected_rw _ sp _ _ h0
               · split
                 · exact h0
                 · exact rw_setTask _ _ _ h0 (fun _ => Or.inr (hc (fun hft => absurd hft hf)))
@@ -469,7 +469,7 @@ theorem step_ji (sp : Spec) (w : World) (ev : Event) (h : JoinInv sp w) : JoinIn
           · split
             · exact ⟨h.1, hrm⟩
             · split
-              · exact ⟨h.1, hrm⟩
+              · exact checkAffected_ji sp _ _ ⟨h.1, hrm⟩
               · split
                 · exact ⟨h.1, hrm⟩
                 · exact ⟨nij_setTask sp _ _ h.1 (by simp), pendOK_append sp _ _ hrm (single _ rfl)⟩
